@@ -15,8 +15,8 @@ Definition specJ (s : sig Z) (c : call Z) : J := match bind s c with Some r => b
 Definition run_bind (x : sig Z * call Z) : J :=
   let '(s, c) := x in
   JL [specJ s c;
-      match lib_getcallargs s c with LOk r => bindingJ r | LErr e => JErr e end;
-      match lib_getcallargs s c with
+      match lib_getcallargs_py s c with LOk r => bindingJ r | LErr e => JErr e end;
+      match lib_getcallargs_py s c with
       | LOk r =>
           (* an invalid call can leave an int under the varargs / varkw name: unpacking an int raises TypeError *)
           let is_bv := fun k => match aget k r with Some (BV _) => true | _ => false end in
@@ -45,7 +45,7 @@ Definition run_stack (x : list tag * sig Z * bool * call Z * J) : J :=
   JL [chainJ chain;
       chainJ (match chain with t :: _ => wrap t chain | [] => [] end);
       chainJ (match ts with t :: _ => wrap t chain | [] => [] end);
-      outJ (apply_chain fallback JZ s chain f c);
+      outJ (call_stack fallback JZ s chain f c);
       outJ (f c);
       JB true].
 
